@@ -1,7 +1,7 @@
 #!/bin/bash
 # run every registered quick (or $1=thorough) check; print id, exit code, wall time, summary line
 TIER=${1:-quick}
-cd /verif
+cd "$(dirname "$0")/.."
 for id in $(python3 -c "import json; print(' '.join(c['property_id'] for c in json.load(open('MANIFEST.json'))['checks']))"); do
   s=$(date +%s.%N)
   out=$(./check $id --tier $TIER 2>&1); rc=$?
